@@ -84,6 +84,22 @@ CHECKS["C08"] = dict(
     note=_XH_NOTE,
     ref="DESIGN.md section 6 C08")
 
+CHECKS["C13"] = dict(
+    technique="bounded symbolic execution of the grouped / conditional / entropy statistics on tables whose grouping keys and feature values are symbolic (CrossHair + z3, pandas groupby contract model); oracle = the coincidence counts of independently formed groups as z3 terms; log uninterpreted",
+    text="pc_conditional equals the w^2-weighted mean of pc over groups with >= 2 members (every partition of 3-4 rows, symbolic weights), NaN when no such group; pc_grouped_cross[g,h] = pc(g,h), symmetric labels, NaN diagonal; pcDelta_grouped / pcDelta_grouped_cross (condensed, and square with bins=0) equal the per-group / per-pair histograms of the real pcDelta; renyi2 / stdrenyi2 entropies equal -log(pc...)/log(base) resp. stdpc/(pc log base) as term equalities. One recorded known finding (square form with vector bins).",
+    note=_XH_NOTE + " pandas groupby/apply/filter semantics are a contract model (pandas 3.0: grouping columns excluded from apply, groups in ascending key order).",
+    ref="DESIGN.md section 6 C13")
+CHECKS["C15"] = dict(
+    technique="bounded symbolic execution of graph_clustering('cc') on symbolic edge lists (igraph union-find contract) with an independent BFS oracle, and of hierarchical_clustering with linkage / fcluster / metric as uninterpreted term constructors (CrossHair + z3)",
+    text="Every neighbour list of 0-3 symbolic triplets over 2-4 nodes: returned rows are exactly the nodes whose component has more than one member, labelled with the caller's labels in input order, two rows share a cluster id iff connected; hierarchical_clustering returns exactly (linkage(metric.calc_pdist_vector(seqs), **linkage_kws), fcluster(that, **cluster_kws)) with the default metric chosen by input kind and option dictionaries forwarded and left untouched. Community methods and the single-linkage<=>components identity are outside the claim.",
+    note=_XH_NOTE,
+    ref="DESIGN.md section 6 C15")
+CHECKS["C17"] = dict(engine="XH+SMT",
+    technique="numpy.random replaced by a nondeterministic oracle so that subsample / downsample assertions are decided for EVERY possible draw (CrossHair + z3); powerlaw_sample / powerlaw_mle_alpha traced on symbolic reals with pow / log / zeta uninterpreted (z3)",
+    text="subsample: for all count vectors (K <= 3, counts 0..2), all n and all draws: sorted unique indices, positive counts summing to n, each <= original; n > total raises; the population handed to the generator has counts[i] entries labelled i (uniformity over items reduces to NumPy's). downsample: identity (same object) when len <= maxseqs / None, else exactly maxseqs drawn input elements / rows. powerlaw_sample: every sample is an integer >= xmin for all uniforms in [0,1), integer xmin >= 1, alpha > 1 (one axiom on pow). powerlaw_mle_alpha: closed forms for 'simple' / 'continuitycorrection' over the counts >= cmin; for 'exact' the objective and bounds handed to the optimiser.",
+    note=_XH_NOTE + " " + _SMT_NOTE,
+    ref="DESIGN.md section 6 C17")
+
 NOT_APPLICABLE = {}
 
 def main():
